@@ -60,12 +60,12 @@ int32_t matrixSslValidatePeerCerts(ssl_t *ssl,
 {
     matrixValidateCertsOptions_t *opts;
     psX509Cert_t *foundIssuer;
-    int32_t rc;
+    int32_t rc, validateRc;
 
     opts = &ssl->validateCertsOpts;
 
     /* Perform MatrixSSL internal validation. */
-    rc = matrixValidateCertsExt(ssl->hsPool,
+    validateRc = rc = matrixValidateCertsExt(ssl->hsPool,
             ssl->sec.cert,
             ssl->keys == NULL ? NULL : ssl->keys->CAcerts,
             ssl->expectedName,
@@ -82,6 +82,14 @@ int32_t matrixSslValidatePeerCerts(ssl_t *ssl,
     psCheckSetPathLenFailure(ssl, ssl->sec.cert);
     rc = psCheckValidationResult(ssl,
             ssl->sec.cert);
+    if (rc >= 0 && validateRc < 0)
+    {
+        /* The validation itself failed (e.g. PS_ARG_FAIL for an illegal
+           option combination) before any authStatus was recorded in the
+           chain. The peer has not been authenticated. */
+        ssl->err = SSL_ALERT_BAD_CERTIFICATE;
+        rc = MATRIXSSL_ERROR;
+    }
     if (rc < 0)
     {
         if (ssl->sec.validateCert == NULL)
